@@ -39,6 +39,66 @@ CHECKS = {
                 assumptions=["'executing' is counted by the harness targets: inside LoadTarget/Evaluate and outside EvaluateTargets"]),
 }
 
+CHECKS.update({
+    "C01": dict(engine="dawn", category="exploration",
+                text="Seeded deterministic simulation of real projects on a real (tmpfs) disk: generated multi-package projects (helper modules, closures, defaults, globals, flags, generated sources) x histories of 3-15 operations (semantic edits of every item kind, no-op edits, dependency-edge edits, deletions and renames inside source directories, partial builds of sub-targets, failing builds, dry runs, GC, index loads), every build = fresh Load + Run in a fresh simulated process. Oracle after every build that reports success: every function target in the closure last executed successfully with exactly its current inputs (independent reference model over the project spec), after the last successful execution of each dependency, with its outputs present; plus a byte comparison with a real from-scratch build of the same tree.",
+                note="The reference model (harness/dawn/gen.go inputItems, ~150 lines) is trusted; target bodies are a harness builtin standing for external commands. Sampling, not proof.",
+                technique="deterministic simulation: seeded histories and schedules against a reference model of target inputs; from-scratch differential build",
+                design="§4 C01", real=REAL_E2,
+                rule="one case = one (project, history); simulated runs = processes (Load+Run); distinct_nontrivial = distinct (project hash, interleaving hash) of processes with >=1 scheduling choice",
+                assumptions=["bodies are deterministic functions of (label, received values, declared sources, dependency outputs named in their code)", "removing a dependency edge or adding unrelated globals is a don't-care edit"]),
+    "C02": dict(engine="dawn", category="exploration",
+                text="Same engine as C01. A label is built, then only edits of the classes the property lists are applied (nothing, touch, same-content rewrite of files and re-creation of directories in another order, edits to sources and to BUILD files outside the closure, comment / whitespace / docstring edits anywhere), then the project is loaded in a fresh simulated process under different schedule and map-order tapes and built again: no body may start (targets marked always and their dependents excepted).",
+                note="An edit keeps the premise only if the reference model says no closure target's inputs changed and it is one of the listed classes; anything else ends the watched window.",
+                technique="deterministic simulation: metamorphic no-op edits + seeded load interleavings and map orders; execution log must stay empty",
+                design="§4 C02", real=REAL_E2,
+                rule="as C01; counters.noop_rebuilds_checked = rebuilds on which the oracle was evaluated",
+                assumptions=["inserting an unrelated global into a BUILD file of the closure is not a no-op (compiled global indices shift)"]),
+    "C03": dict(engine="dawn", category="fault_enumeration",
+                text="For each sampled (project, history prefix, schedule): the last build is run once uninterrupted while its persistent-effect boundaries are recorded (every simulated os create/write/close/rename/mkdir/remove, every body start/yield/write/end); then, replaying the same tapes from a snapshot of the tree, the simulated process is killed at EVERY boundary (and inside every write: torn), or every non-empty subset (<=15) of executing bodies fails, or EVERY I/O operation fails with ENOSPC/EIO/EACCES/EMFILE, or (compose) the recovery build is killed again. After each: Load with and without the index must succeed, the next fault-free build must succeed, satisfy the C01 oracle, re-execute every body that started but did not finish, and leave generated files byte-equal to the uninterrupted run.",
+                note="Exhaustive over single fault points per sampled scenario (a stratified sample of boundaries above 160 in the quick tier), seeded over scenarios. Process crash, not power loss: completed system calls persist (dawn never fsyncs).",
+                technique="deterministic simulation: crash-point / failure-subset / I-O-error enumeration with replayed schedules, recovery oracle",
+                design="§4 C03", real=REAL_E2,
+                rule="one case = one scenario with all its fault points; simulated runs count every faulted process and every recovery load/build; distinct_nontrivial = distinct (project, trace) hashes incl. the fault",
+                assumptions=["crash = every goroutine of the simulated process stops at a yield point; only the disk survives"]),
+    "C06": dict(engine="dawn", category="exploration",
+                text="Load-only simulation of generated load graphs (1-5 packages, 0-6 helper modules; chains, diamonds, helpers shared by several packages that load others, self-loads, 2- and n-cycles, BUILD files loading each other), modules yield 0-3 times at top level so that loaders meet mid-load. Oracle: ModuleLoading <=1 per module, no deadlock or budget exhaustion, acyclic => Load succeeds with exactly the model's targets and flags (twice, under different tapes), cyclic => Load fails with an error mentioning the cyclic dependency.",
+                note="Granularity: sync points and sim_yield calls; module.done's unlocked writes before taking the lock are executed in one order only.",
+                technique="deterministic simulation: seeded interleavings of per-package loader goroutines, deadlock detection, graph model",
+                design="§4 C06", real=REAL_E2,
+                rule="one case = one load graph loaded twice; probes.cyclic_load_graph counts cyclic ones",
+                assumptions=[]),
+    "C08": dict(engine="dawn", category="exploration",
+                text="Function zoo: recursion and mutual recursion (within a module and across loaded modules), closures, three-deep nested defs, lambdas, comprehensions, defaults of every value kind, *args/**kwargs, references to host/package/Cache()/os/sh/json and to other target objects, collections of 0..2500 elements at nested positions, shared and self-referential values, every integer width boundary. Oracle: the worker process survives (a death is attributed to the journalled scenario and confirmed in a fresh process), load and build report no fingerprinting error, a second load under other tapes re-executes nothing, and for each referenced item in turn a semantic edit re-executes every referencing target.",
+                note="A fatal runtime error (stack overflow) cannot be recovered in-process; the driver reports it as class worker-death.",
+                technique="deterministic simulation: generated function shapes, crash attribution by journal, metamorphic reload/edit oracles",
+                design="§4 C08", real=REAL_E2,
+                rule="one case = one zoo project with 2 + (number of edits) builds of //:all",
+                assumptions=[]),
+    "C13": dict(engine="dawn", category="exploration",
+                text="C01-style histories with dry runs inserted before real builds of the same label. Oracle: between the end of a dry run's load and the end of its run the whole tree (project files and .dawn) is byte-identical and no body starts; the set of targets it reports evaluating equals that of the following real build (when that fails: a subset relation apart from targets downstream of the failure); and the same history without the dry runs (same tapes) executes the same bodies in every real build and ends with identical generated files.",
+                note="The tree hash covers names and contents, not timestamps.", technique="deterministic simulation: twin histories with and without dry runs, tree hashing, event comparison",
+                design="§4 C13", real=REAL_E2, rule="one case = one history run twice (with and without its dry runs)", assumptions=[]),
+    "C14": dict(engine="dawn", category="exploration",
+                text="Histories with target additions/removals (a removed label is never re-created), failing builds and GC at arbitrary points, run twice with identical tapes, with and without the collections: every build must execute the same bodies and the final generated files must be identical. After each collection: nothing outside .dawn/build changed, temp/ is empty, every record of a live target or source is still there byte-identical, and no other record remains; the live set is obtained from a from-scratch load+build of every label of the same tree (the harness does not mirror dawn's record path scheme).",
+                note="", technique="deterministic simulation: twin histories with and without GC, record-set comparison against a from-scratch state",
+                design="§4 C14", real=REAL_E2, rule="one case = one history run twice; counters.collections_fully_checked", assumptions=[]),
+    "C15": dict(engine="dawn", category="fault_enumeration",
+                text="Stored bytes as the fault: (records) for a built project (optionally with a pending edit) every record file and index.json gets single-byte corruptions (xor 0x01, xor 0x80, 0x00, 0xff, case flip) and truncations at every offset (strided above 120 bytes in the quick tier), each followed by a simulated Load + Build: allowed outcomes are a reported load error, a reported build error, or success that satisfies the C01 oracle; (stream) every environment encoding found in the records is handed to the real decoder with dawn's unpickler through a faulting io.Reader - every single-byte corruption at every offset, EOF at every offset, 1- and 3-byte reads, seeded multi-byte garbage: the result must be (non-nil value, nil) or (_, error), no panic. Streams whose declared string lengths exceed the input are skipped and counted, as the property excludes them.",
+                note="Exhaustive over single faults per sampled artefact in the stream mode and in the thorough tier; worker deaths are attributed by journal.",
+                technique="deterministic simulation: stored-byte and stream fault enumeration against the real decoder and loader",
+                design="§4 C15", real=REAL_E2, rule="one case = one project with all its corruptions; distinct_nontrivial counts distinct corrupted inputs / faulted processes", assumptions=[]),
+    "C18": dict(engine="dawn", category="exploration",
+                text="Histories of builds (failing bodies, dependency cycles, unknown dependencies, dry runs, always, two runs on one loaded project) with seeded chunking of body output (1-byte, mid-line, many lines per write, empty writes). Oracle per run: each label's events match UpToDate | Evaluating Print* (Succeeded|Failed) | Failed(missing or cyclic dependency); printed lines equal the text the body wrote split at newlines, once, in order; evaluating reported exactly when the body ran; exactly one run-done per run, after the requested target's last event, carrying the build's error.",
+                note="When a build fails on a dependency cycle the runner returns while other targets are still finishing; only the requested target's events are required to be complete by run-done in that case. The CLI renderers (package main) are not exercised.",
+                technique="deterministic simulation: event-stream automaton over recorded events, seeded write chunking",
+                design="§4 C18", real=REAL_E2, rule="one case = one history; counters.runs_checked", assumptions=[]),
+    "C20": dict(engine="dawn", category="exploration",
+                text="2-6 simulated client goroutines issue 1-4 once(key, callable) calls over 1-3 keys on one cache; callables yield inside the write lock and return a unique value or fail. The recorded invoke/return history (stamped with the simulator's event sequence) is checked with porcupine against the sequential model (a map; once returns the stored value without calling, else calls; a failure stores nothing), plus: at most one successful invocation per key, all successful callers of a key receive the same value.",
+                note="porcupine timeouts (30 s) are counted, never reported.", technique="deterministic simulation + linearizability checking (porcupine) against a sequential reference model",
+                design="§4 C20", real=REAL_E3, rule="one case = one history of <=24 operations", assumptions=["nested once on the same cache from inside a callable self-deadlocks by construction and is not generated"]),
+})
+
 NOT_APPLICABLE = {
     "C07": "pure function of its input (Decode(Encode(v)) ~ v): no schedule, clock, fault or history in the statement or the code path - not a simulation target (DESIGN.md §5); stream faults on the same codec are decided under C15, values flowing through it in builds under C01/C08",
     "C12": "label parsing/printing and path confinement are pure string functions: nothing for a simulator to schedule or fault (DESIGN.md §5)",
@@ -47,7 +107,7 @@ NOT_APPLICABLE = {
     "C19": "config write/load round-trip is a pure function; the file is only a carrier (DESIGN.md §5)",
 }
 
-PENDING = {p: "claimed in DESIGN.md; its check is still being built in this session and is not registered until it runs clean on the unchanged tree" for p in "C01 C02 C03 C06 C08 C10 C11 C13 C14 C15 C18 C20".split()}  # property -> reason while its engine is not built yet
+PENDING = {p: "claimed in DESIGN.md; its check is still being built in this session and is not registered until it runs clean on the unchanged tree" for p in "C10 C11".split()}  # property -> reason while its engine is not built yet
 
 
 def main():
